@@ -16,10 +16,10 @@
 #include <sys/mman.h>
 #include <sys/stat.h>
 #include <time.h>
-#include <ucontext.h>
 #include <unistd.h>
 
 #include <algorithm>
+#include <map>
 #include <unordered_map>
 #include <unordered_set>
 
@@ -83,7 +83,7 @@ const char *class_name(int c) {
   static const char *n[] = {"main", "primary", "worker", "source", "sink", "other"};
   return c >= 0 && c < FC_NCLASSES ? n[c] : "?";
 }
-const char *variant() { return SIM_VARIANT; }
+const char *variant() { const char *e = getenv("VERIF_VARIANT"); return e && *e ? e : SIM_VARIANT; }   // ndebug variants share the harness objects
 
 int World::add(const std::string &name, const Inode &ino) {
   inodes.push_back(ino);
@@ -152,7 +152,7 @@ enum Op { OP_START = 1, OP_LOCK, OP_WAIT, OP_SIGNAL, OP_BCAST, OP_CREATE, OP_JOI
 #endif
 
 struct Fiber {
-  ucontext_t ctx;
+  void *sp = nullptr;                 // saved stack pointer (sim_switch)
   char *stack = nullptr;
   int state = ST_FREE;
   const void *obj = nullptr;          // what it is blocked on
@@ -176,7 +176,7 @@ struct State {
   Result *res = nullptr;
   Fiber F[MAXF];
   int nf = 0, cur = -1;
-  ucontext_t root;
+  void *root_sp = nullptr;
   void *root_ts = nullptr;
   bool over = false;
   Rng rng{0};
@@ -275,14 +275,50 @@ static inline int64_t oid(const void *p) {
 }
 
 // ------------------------------------------------------------------ context switching
+// A minimal x86-64 context switch (callee-saved registers + stack pointer).  swapcontext() is
+// avoided on purpose: it makes a sigprocmask system call per switch, and ASan's interceptor
+// re-maps the shadow of the whole target stack on every call.  The sanitizers are told about
+// the switch through their fiber APIs instead.
+extern "C" void sim_switch(void **save_sp, void *load_sp);
+extern "C" void sim_tramp(void);
+asm(R"(
+  .text
+  .globl sim_switch
+  .type sim_switch,@function
+sim_switch:
+  pushq %rbp
+  pushq %rbx
+  pushq %r12
+  pushq %r13
+  pushq %r14
+  pushq %r15
+  movq %rsp, (%rdi)
+  movq %rsi, %rsp
+  popq %r15
+  popq %r14
+  popq %r13
+  popq %r12
+  popq %rbx
+  popq %rbp
+  ret
+  .size sim_switch,.-sim_switch
+  .globl sim_tramp
+  .type sim_tramp,@function
+sim_tramp:
+  movq %r12, %rdi
+  call *%r13
+  ud2
+  .size sim_tramp,.-sim_tramp
+)");
+
 __attribute__((unused)) static const void *g_root_bottom;
 __attribute__((unused)) static size_t g_root_size;
 
 static void switch_to(int from, int to, bool dying) {
   // from == -1: root context; to == -1: root context
   State &s = *S;
-  ucontext_t *fc = from < 0 ? &s.root : &s.F[from].ctx;
-  ucontext_t *tc = to < 0 ? &s.root : &s.F[to].ctx;
+  void **fsp = from < 0 ? &s.root_sp : &s.F[from].sp;
+  void *tsp = to < 0 ? s.root_sp : s.F[to].sp;
   shim_suspend();
   s.cur = to;
 #ifdef SIM_TSAN
@@ -297,7 +333,7 @@ static void switch_to(int from, int to, bool dying) {
   __sanitizer_start_switch_fiber(dying ? nullptr : &fake, bottom, size);
 #endif
   (void)dying;
-  swapcontext(fc, tc);
+  sim_switch(fsp, tsp);
 #ifdef SIM_ASAN
   {
     const void *ob; size_t os;
@@ -572,12 +608,20 @@ static int new_fiber(void *(*fn)(void *), void *arg, uint64_t mask, int cls) {
 #ifdef SIM_ASAN
   __asan_unpoison_memory_region(f.stack, STK);
 #endif
-  memset(&f.ctx, 0, sizeof f.ctx);
-  getcontext(&f.ctx);
-  f.ctx.uc_stack.ss_sp = f.stack;
-  f.ctx.uc_stack.ss_size = STK;
-  f.ctx.uc_link = 0;
-  makecontext(&f.ctx, (void (*)(void))fiber_entry, 1, id);
+  {
+    // initial frame: six callee-saved registers (r15 r14 r13 r12 rbx rbp) and the return address
+    uintptr_t top = ((uintptr_t)f.stack + STK) & ~(uintptr_t)15;
+    uintptr_t *sp = (uintptr_t *)(top - 72);      // 7 words popped -> rsp = top - 16 at sim_tramp: 16-byte aligned before its call
+    sp[0] = 0;                                    // r15
+    sp[1] = 0;                                    // r14
+    sp[2] = (uintptr_t)(void (*)(int))fiber_entry;   // r13
+    sp[3] = (uintptr_t)id;                        // r12
+    sp[4] = 0;                                    // rbx
+    sp[5] = 0;                                    // rbp
+    sp[6] = (uintptr_t)sim_tramp;                 // return address
+    sp[7] = 0; sp[8] = 0;
+    f.sp = sp;
+  }
   f.state = ST_RUN; f.obj = nullptr; f.cond_mutex = nullptr;
   f.fn = fn; f.arg = arg; f.mask = mask; f.tpend = 0; f.wait_mask = 0;
   f.cls = cls;
@@ -843,8 +887,59 @@ int simw_clock_gettime(clockid_t c, struct timespec *t) { SHIM;
 }
 
 // ---- heap
+#ifdef SIM_ASAN
+// ASan's allocator mmaps and munmaps every block above 256 KiB; lbzip2 allocates 0.9-4.8 MB
+// blocks all the time, which made sanitized runs spend most of their time in page faults.
+// Large blocks therefore come from a per-process pool: [user bytes][8 canary bytes][poisoned
+// slack]; a freed block is poisoned entirely, so overflow and use-after-free stay visible
+// (overflows of 1-8 bytes through the canary, checked at free and at the end of the run).
+#define POOL_MIN (128u << 10)
+#define POOL_GRAIN (64u << 10)
+static std::map<size_t, std::vector<char *>> g_pool;
+static std::unordered_map<void *, size_t> g_pool_cap;   // live pooled block -> capacity
+static size_t g_pool_bytes;
+static char *pool_get(size_t n, uint8_t junk) {
+  size_t cap = (n + 8 + POOL_GRAIN - 1) / POOL_GRAIN * POOL_GRAIN;
+  auto &v = g_pool[cap];
+  char *p;
+  if (v.empty()) { p = (char *)malloc(cap); if (!p) return nullptr; }
+  else { p = v.back(); v.pop_back(); g_pool_bytes -= cap; }
+  __asan_unpoison_memory_region(p, n + 8);
+  memset(p, junk, n);
+  memcpy(p + n, canary_bytes, 8);
+  __asan_poison_memory_region(p + n + 8, cap - n - 8);
+  g_pool_cap[p] = cap;
+  return p;
+}
+static bool pool_put(void *p, size_t n) {
+  auto it = g_pool_cap.find(p);
+  if (it == g_pool_cap.end()) return false;
+  size_t cap = it->second;
+  g_pool_cap.erase(it);
+  if (memcmp((char *)p + n, canary_bytes, 8) != 0 && S && S->res->monitor.empty()) {
+    char b[128]; snprintf(b, sizeof b, "heap: write past the end of a %zu-byte block", n);
+    S->res->monitor = b;
+  }
+  if (g_pool_bytes + cap > (768u << 20)) { __asan_unpoison_memory_region(p, cap); free(p); return true; }
+  __asan_poison_memory_region(p, cap);
+  g_pool[cap].push_back((char *)p);
+  g_pool_bytes += cap;
+  return true;
+}
+#endif
+
 void *simw_malloc(size_t n) { SHIM;
   State &s = *S;
+#ifdef SIM_ASAN
+  if (n >= POOL_MIN) {
+    char *pp = pool_get(n, s.plan->junk);
+    if (!pp) return nullptr;
+    s.live[pp] = n;
+    s.live_bytes += n;
+    if (s.live_bytes > s.res->peak_heap) s.res->peak_heap = s.live_bytes;
+    return pp;
+  }
+#endif
   char *p = (char *)malloc(n + CANARY);
   if (!p) return nullptr;
   memset(p, s.plan->junk, n);
@@ -863,7 +958,12 @@ void simw_free(void *p) { SHIM;
   if (it == s.live.end()) { free(p); return; }   // not ours (e.g. strdup from libc)
   heap_check_block(p, it->second);
   s.live_bytes -= it->second;
+  size_t blk_n = it->second;
   s.live.erase(it);
+#ifdef SIM_ASAN
+  if (pool_put(p, blk_n)) return;
+#endif
+  (void)blk_n;
   shim_suspend();
   free(p);      // TSan: the release of the block is an access of the freeing thread
   shim_resume();
@@ -945,7 +1045,8 @@ int simw_open64(const char *path, int flags, ...) { SHIM;
   int role = (flags & O_ACCMODE) == O_RDONLY ? R_IN : R_OUT;
   if (Fault *f = match_fault(C_OPEN, role)) { ev(OP_OPEN, role, -f->err); errno = f->err; return -1; }
   int r = -1;
-  if ((flags & O_ACCMODE) == O_RDONLY) {
+  if (!*path) r = -ENOENT;
+  else if ((flags & O_ACCMODE) == O_RDONLY) {
     int ino = resolve(path, true, nullptr);
     if (ino == -2) { r = -ELOOP; }
     else if (ino < 0) r = -ENOENT;
@@ -1348,7 +1449,12 @@ Result run(const Plan &plan) {
   // back in root: run is over
   for (auto &kv : s.live) heap_check_block(kv.first, kv.second);
   R.final_heap = s.live_bytes;
-  for (auto &kv : s.live) free(kv.first);
+  for (auto &kv : s.live) {
+#ifdef SIM_ASAN
+    if (pool_put(kv.first, kv.second)) continue;
+#endif
+    free(kv.first);
+  }
   s.live.clear();
   for (char *c : s.envbuf) free(c);
 #ifdef SIM_TSAN
